@@ -594,6 +594,57 @@ def gap_gene_locus(w, gid, chrom, p, strand):
     return [g, gh], p + 30600
 
 
+def near_site_novel_locus(w, gid, chrom, p, strand):
+    """t1 = e1..e5, t2 = e1-e3-e5 (annotated); the unannotated isoform e1-e2-e3-e5' is a new combination of annotated introns except
+    that its last junction (first for '-') sits 3 bp away from the annotated site of t2's intron: that intron is unannotated, although it
+    lies within every matching tolerance of an annotated one."""
+    e = [(p, p + 300), (p + 900, p + 1200), (p + 1800, p + 2000), (p + 2600, p + 2900), (p + 3500, p + 3900)]
+    t1 = list(e)
+    t2 = [e[0], e[2], e[4]]
+    if strand == "+":
+        nov = [e[0], e[1], e[2], (e[4][0] - 3, e[4][1])]      # the read intron is the SHORTER one: its site is kept as aligned
+    else:
+        nov = [(e[0][0], e[0][1] + 3), e[2], e[3], e[4]]
+    g = Gene(gid, chrom, strand)
+    g.transcripts.append(Transcript(gid + ".t1", gid, chrom, strand, t1, True, "near-site-host"))
+    g.transcripts.append(Transcript(gid + ".t2", gid, chrom, strand, t2, True, "near-site-host"))
+    g.hidden.append(Transcript(gid + ".h1", gid, chrom, strand, nov, False, "near-site-novel"))
+    for t in g.transcripts + g.hidden:
+        for intr in t.introns:
+            w.plant_sites(chrom, intr, strand)
+    w.genes.append(g)
+    return g, p + 3900
+
+
+def low_coverage_novel_locus(w, gid, chrom, p, strand):
+    """T1 = E1-E2-E3-E4 (170 reads), T2 = E1-E3-E5 (6 reads), 3 reads of the unannotated combination E1-E2-E3-E5 (below the relative
+    coverage cut-off of a novel model) and 2 partial reads E1'-E2-E3' compatible with T1 and the novel combination only."""
+    e = [(p, p + 300), (p + 900, p + 1150), (p + 1800, p + 2100), (p + 2700, p + 3000), (p + 3600, p + 3900)]
+    if strand == "-":
+        e = sorted((2 * p + 3900 - b_, 2 * p + 3900 - a_) for a_, b_ in e)
+        t1, t2, nov = [e[1], e[2], e[3], e[4]], [e[0], e[2], e[4]], [e[0], e[2], e[3], e[4]]
+        part = [(e[2][0] + 40, e[2][1]), e[3], (e[4][0], e[4][1] - 60)]
+    else:
+        t1, t2, nov = [e[0], e[1], e[2], e[3]], [e[0], e[2], e[4]], [e[0], e[1], e[2], e[4]]
+        part = [(e[0][0] + 60, e[0][1]), e[1], (e[2][0], e[2][1] - 40)]
+    g = Gene(gid, chrom, strand)
+    g.transcripts.append(Transcript(gid + ".t1", gid, chrom, strand, t1, True, "high-coverage"))
+    g.transcripts.append(Transcript(gid + ".t2", gid, chrom, strand, t2, True, "low-coverage"))
+    g.hidden.append(Transcript(gid + ".h1", gid, chrom, strand, nov, False, "novel-below-relative-coverage"))
+    for t in g.transcripts + g.hidden:
+        for intr in t.introns:
+            w.plant_sites(chrom, intr, strand)
+    w.genes.append(g)
+    tail = {"polya": 30} if strand == "+" else {"polyt": 30}
+    fl = 0 if strand == "+" else 16
+    for ex, n, cls in ((t1, 170, "t1"), (t2, 6, "t2"), (nov, 3, "novel-combination")):
+        for _ in range(n):
+            w.make_read(chrom, list(ex), flag=fl, truth={"src": gid, "class": cls}, **tail)
+    for _ in range(2):
+        w.make_read(chrom, list(part), flag=fl, truth={"src": gid, "class": "partial-compatible-with-t1-and-novel"})
+    return g, p + 3900
+
+
 def gene_valley_locus(w, gid, chrom, p, strand):
     """Four-exon gene with a 36-kb middle intron; nested reads over exons 1-2 and 3-4 (3' ends in different 256-bp bins), full-length
     reads bridging the coverage-1 stretch: the cluster is longer than 32 kb and is processed in two regions."""
@@ -614,7 +665,8 @@ def gene_valley_locus(w, gid, chrom, p, strand):
 
 
 ZOO_ALL = ("ambiguous_only", "twins", "contested", "intronic", "apa", "alt_terminal", "shifted_site", "shared_chain", "same_coords",
-           "one_bp_exon", "lowmapq_two_exon", "mono_only", "gap_gene", "gene_valley", "odd_chroms")
+           "one_bp_exon", "lowmapq_two_exon", "mono_only", "gap_gene", "gene_valley", "odd_chroms",
+           "near_site_novel", "low_cov_novel")
 ZOO_NO_TIES = tuple(z for z in ZOO_ALL if z != "twins")
 
 
@@ -710,6 +762,13 @@ def add_zoo(w, parts=ZOO_ALL):
         if "mono_only" in parts and room(9000):
             mono_only_locus(w, "ZMO" + tag, chrom, _free_pos(w, chrom, 4000), "+-"[ci % 2])
             placed.add("mono_only")
+        if "near_site_novel" in parts and room(6500):
+            g, _ = near_site_novel_locus(w, "ZNS" + tag, chrom, _free_pos(w, chrom), "+-"[ci % 2])
+            _reads_for(w, g, n_ann=4, n_hidden=12, modes=("full",))
+            placed.add("near_site_novel")
+        if "low_cov_novel" in parts and ci == 2 % max(1, len(chroms_for_loci)) and room(6500):
+            low_coverage_novel_locus(w, "ZLC" + tag, chrom, _free_pos(w, chrom), "+-"[ci % 2])
+            placed.add("low_cov_novel")
         if "gap_gene" in parts and ci == 1 and room(36000):
             gap_gene_locus(w, "ZGAP" + tag, chrom, _free_pos(w, chrom, 4000), "+-"[ci % 2])
             placed.add("gap_gene")
